@@ -1,1 +1,2 @@
+import Driver.Path
 import Driver.Slice
